@@ -7,6 +7,7 @@ import json
 import os
 import re
 from .common import Finding
+from . import decide
 from .facts import walk, lit_val, callee
 from . import guards
 from .guards import TRUE, f_not
@@ -433,6 +434,47 @@ def render(items, depth=0):
     return " ".join(out)
 
 
+def _flat(items, out=None):
+    """leaf pieces of a template as comparable strings"""
+    out = out if out is not None else []
+    for it in items or []:
+        k = it[0]
+        if k == "lit":
+            out.append("L:" + it[1])
+        elif k == "val":
+            out.append("V:%s:%s" % (it[1], it[2] or ""))
+        elif k == "if":
+            out.append("C:" + it[1])
+            _flat(it[2], out)
+            _flat(it[3], out)
+        elif k == "for":
+            out.append("F:" + it[1])
+            _flat(it[2], out)
+        elif k in ("xform", "fmtd"):
+            out.append("X:%s" % (it[1],))
+            _flat(it[2], out)
+        elif k == "match":
+            for c, x in it[1]:
+                out.append("M:%s" % (c,))
+                _flat(x, out)
+        else:
+            out.append("?" + json.dumps(it)[:200])
+    return out
+
+
+_V = []
+
+
+def _vocab(spec):
+    if not _V:
+        texts = []
+        for p, v in spec.items():
+            texts.append(p)
+            texts.extend(x for x in _flat(v["t"]) if not x.startswith("L:"))
+        _V.append(decide.vocabulary(texts))
+    return _V[0]
+
+
 def e1(rep, F, flt=None):
     r = rep.rule("E1", "emission template = reviewed reference: the text every serialiser builds (tag and separator "
                        "literals, the components it renders with their precision / padding, the conditions and loops "
@@ -457,6 +499,16 @@ def e1(rep, F, flt=None):
             continue
         t, b = cur[path]
         if json.dumps(t) != json.dumps(spec[path]["t"]):
+            # pieces that differ; a piece the extractor could not interpret (an unknown item kind, an unresolved
+            # local, a helper the reference does not know) makes the comparison undecided, not a violation
+            fa, fb = set(_flat(t)), set(_flat(spec[path]["t"]))
+            diff = (fa - fb) | (fb - fa)
+            vocab = _vocab(spec)
+            if any(not x.startswith("L:") and (x.startswith("?") or decide.opaque(x[2:], vocab)) for x in diff):
+                r["undecided"] = r.get("undecided", 0) + 1
+                rep.notes.append("E1: %s: template differs from the reference only in pieces the extractor cannot "
+                                 "resolve: undecided, not reported" % path)
+                continue
             rep.add(Finding("E1", path, "template-changed",
                             "%s now builds `%s`; the reference template is `%s`"
                             % (path, render(t)[:400], render(spec[path]["t"])[:400]), b["file"], b["line"]))
